@@ -15,13 +15,15 @@
 //! (output formats: coq/Model/RunAof.v).
 //!
 //! Generator: (1) the table tie - every command name of server.rs's dispatch table, read from
-//! /repo at run time, is sent once and the file inspected; (2) fixed witnesses of the known
-//! classes; (3) "clean" histories (id cl-*): the logged, deterministic catalogue in database 0
-//! with long TTLs - the domain of theorem c11_replay, where the property oracle accepts no
-//! disagreement at all; (4) "dirty" histories (id dx-*): additionally SELECT, GETSET, HMSET,
-//! PEXPIRE, XREADGROUP, SPOP, XADD *, zero TTLs.  Commands come from the string/key family
-//! (c01), lists/sets/hashes (c03) and a stream/group generator, directly and through
-//! MULTI/EXEC (also aborted by WATCH, DISCARDed), on one or two connections.
+//! /repo at run time, is sent once and the file inspected; (2) fixed witnesses of the open
+//! classes (those of the classes repaired by 8d99f01 / 7ef6fad / 39510e9 are regression cases
+//! in corpus/C11); (3) "clean" histories (id cl-*): the deterministic catalogue in any database
+//! (SELECT included) with long TTLs - the domain of theorem c11_replay, where the property
+//! oracle accepts no disagreement at all; (4) "dirty" histories (id dx-*): additionally SPOP,
+//! XADD *, zero TTLs, SCRIPT LOAD / EVALSHA.  Commands come from the string/key family (c01),
+//! lists/sets/hashes (c03), a stream/group generator, a sorted-set generator and EVAL of small
+//! scripts in the DSL of C12, directly and through MULTI/EXEC (also aborted by WATCH,
+//! DISCARDed), on one or two connections.
 use crate::resp::*;
 use crate::rng::Rng;
 use crate::srv::*;
@@ -43,7 +45,7 @@ pub fn all_keys() -> Vec<Vec<u8>> {
     for k in c01::OTHER_KEYS { add(k); }
     for k in c03::all_keys() { add(k); }
     for k in STREAM_KEYS { add(k); }
-    add(b"x3"); add(b"nokey");
+    add(b"x3"); add(b"nokey"); add(b"z2");
     ks
 }
 
@@ -51,17 +53,22 @@ pub fn all_keys() -> Vec<Vec<u8>> {
 /// type's reader; the groups of the stream keys; the key space of databases 0 and 1
 pub fn dump_reqs() -> Vec<V> {
     let mut d = vec![];
-    for k in all_keys() {
-        d.push(V::cmd(&[b"TYPE", &k])); d.push(V::cmd(&[b"PTTL", &k])); d.push(V::cmd(&[b"GET", &k]));
-        d.push(V::cmd(&[b"LRANGE", &k, b"0", b"-1"])); d.push(V::cmd(&[b"SMEMBERS", &k])); d.push(V::cmd(&[b"HGETALL", &k]));
-        d.push(V::cmd(&[b"XRANGE", &k, b"-", b"+"]));
-    }
+    let per_key = |d: &mut Vec<V>| {
+        for k in all_keys() {
+            d.push(V::cmd(&[b"TYPE", &k])); d.push(V::cmd(&[b"PTTL", &k])); d.push(V::cmd(&[b"GET", &k]));
+            d.push(V::cmd(&[b"LRANGE", &k, b"0", b"-1"])); d.push(V::cmd(&[b"SMEMBERS", &k])); d.push(V::cmd(&[b"HGETALL", &k]));
+            d.push(V::cmd(&[b"XRANGE", &k, b"-", b"+"])); d.push(V::cmd(&[b"ZRANGE", &k, b"0", b"-1", b"WITHSCORES"]));
+        }
+    };
+    per_key(&mut d);
     for k in STREAM_KEYS.iter().chain([&b"x3"[..]].iter()) {
         d.push(V::cmd(&[b"XINFO", b"STREAM", k])); d.push(V::cmd(&[b"XINFO", b"GROUPS", k]));
         for g in GROUPS { d.push(V::cmd(&[b"XPENDING", k, g])); d.push(V::cmd(&[b"XPENDING", k, g, b"-", b"+", b"1000"])); }
     }
     d.push(V::cmd(&[b"KEYS", b"*"])); d.push(V::cmd(&[b"DBSIZE"]));
-    d.push(V::cmd(&[b"SELECT", b"1"])); d.push(V::cmd(&[b"KEYS", b"*"])); d.push(V::cmd(&[b"DBSIZE"])); d.push(V::cmd(&[b"SELECT", b"0"]));
+    d.push(V::cmd(&[b"SELECT", b"1"])); per_key(&mut d); d.push(V::cmd(&[b"KEYS", b"*"])); d.push(V::cmd(&[b"DBSIZE"]));
+    for n in [&b"2"[..], b"15"] { d.push(V::cmd(&[b"SELECT", n])); d.push(V::cmd(&[b"KEYS", b"*"])); d.push(V::cmd(&[b"DBSIZE"])); }
+    d.push(V::cmd(&[b"SELECT", b"0"]));
     d
 }
 
@@ -105,9 +112,7 @@ fn stream_cmd(r: &mut Rng, st: &mut StreamSt, dirty: bool, intx: bool) -> Vec<Ve
         17 => vec![v(b"XLEN"), k.clone()],
         18 => vec![v(b"XRANGE"), k.clone(), v(b"-"), v(b"+")],
         19..=22 => {
-            let mut cmd = vec![v(b"XGROUP"), v(b"CREATE"), k.clone(), g, v(*r.pick(&[&b"0"[..], b"0", b"0-0"]))];
-            // the start ID is ignored by this branch's Streams.v (542e5a3 repaired it in /repo) and an
-            // invalid ID is now refused before the type check (7f9490b): 0 only
+            let mut cmd = vec![v(b"XGROUP"), v(b"CREATE"), k.clone(), g, v(*r.pick(&[&b"0"[..], b"0", b"$", b"2-0", b"abc"]))];
             if r.chance(1, 3) { cmd.push(v(b"MKSTREAM")); }
             cmd
         }
@@ -116,9 +121,10 @@ fn stream_cmd(r: &mut Rng, st: &mut StreamSt, dirty: bool, intx: bool) -> Vec<Ve
         26 => vec![v(b"XGROUP"), v(b"DELCONSUMER"), k.clone(), g, c],
         27 => { let id = if r.chance(1, 2) { v(*r.pick(&[&b"$"[..], b"0-0", b"0"])) } else { known(r, st) }; vec![v(b"XGROUP"), v(b"SETID"), k.clone(), g, id] }
         28..=31 => {
-            if dirty {
+            if dirty || !dirty {
                 let mut cmd = vec![v(b"XREADGROUP"), v(b"GROUP"), g, c];
                 if r.chance(1, 2) { cmd.push(v(b"COUNT")); cmd.push(v(*r.pick(&[&b"1"[..], b"2"]))); }
+                if r.chance(1, 8) { cmd.push(v(b"NOACK")); }
                 cmd.push(v(b"STREAMS")); cmd.push(k.clone()); cmd.push(v(if r.chance(1, 8) { b"0" } else { b">" }));
                 cmd
             } else { vec![v(b"XPENDING"), k.clone(), g] }
@@ -139,34 +145,64 @@ fn stream_cmd(r: &mut Rng, st: &mut StreamSt, dirty: bool, intx: bool) -> Vec<Ve
 fn upper(b: &[u8]) -> Vec<u8> { b.to_ascii_uppercase() }
 const RANDOM_NAMES: &[&[u8]] = &[b"SPOP", b"SRANDMEMBER", b"RANDOMKEY"];
 /// the names whose commands are outside the domain of theorem c11_replay
-const REFUTED_NAMES: &[&[u8]] = &[b"GETSET", b"HMSET", b"PEXPIRE", b"XREADGROUP", b"SPOP", b"SELECT"];
+const REFUTED_NAMES: &[&[u8]] = &[b"SPOP"];
 
-/// values at the i64 boundary would let a later HINCRBY overflow (the model of this branch still
-/// carries the pre-c5f1b6a panic there; C03 owns that class): keep hash arithmetic small
-fn tame(cmd: &mut Vec<Vec<u8>>) {
-    let n = upper(&cmd[0]);
-    if n == b"HSET" || n == b"HMSET" {
-        for a in cmd.iter_mut().skip(2) { if a.len() >= 19 { *a = v(b"42"); } }
-        // one pair per field (repeated fields on a fresh key: class hset-fresh-dup of C03, repaired in
-        // /repo by 61742d6 but not yet in this branch's Lists.v)
-        if cmd.len() >= 4 && cmd.len() % 2 == 0 {
-            let mut out = cmd[..2].to_vec(); let mut seen: Vec<Vec<u8>> = vec![];
-            for p in cmd[2..].chunks(2) { if !seen.contains(&p[0]) { seen.push(p[0].clone()); out.push(p[0].clone()); out.push(p[1].clone()); } }
-            *cmd = out;
-        }
+const ZKEYS: &[&[u8]] = &[b"z1", b"z2", b"z1", b"s1", b"nokey"];
+const ZMEMBERS: &[&[u8]] = &[b"a", b"b", b"c", b"", b"\xff\x80"];
+/// sorted sets with integer-valued scores (their text is exact on both sides)
+fn zset_cmd(r: &mut Rng) -> Vec<Vec<u8>> {
+    let k = v(*r.pick(ZKEYS)); let m = v(*r.pick(ZMEMBERS));
+    let sc = |r: &mut Rng| v(*r.pick(&[&b"0"[..], b"1", b"2", b"3", b"-1", b"10", b"abc", b"inf"]));
+    match r.below(20) {
+        0..=7 => { let mut c = vec![v(b"ZADD"), k]; for _ in 0..(1 + r.below(3)) { c.push(sc(r)); c.push(v(*r.pick(ZMEMBERS))); } if r.chance(1, 20) { c.pop(); } c }
+        8 | 9 => vec![v(b"ZREM"), k, m, v(*r.pick(ZMEMBERS))],
+        10..=12 => vec![v(b"ZINCRBY"), k, v(*r.pick(&[&b"1"[..], b"-1", b"2", b"5", b"x"])), m],
+        13 | 14 => { let mut c = vec![v(if r.chance(1, 2) { b"ZPOPMIN" } else { b"ZPOPMAX" }), k]; if r.chance(1, 2) { c.push(v(*r.pick(&[&b"1"[..], b"2", b"0", b"10", b"x"]))); } c }
+        15 => vec![v(b"ZSCORE"), k, m],
+        16 => vec![v(b"ZCARD"), k],
+        17 => vec![v(b"ZRANK"), k, m],
+        18 => vec![v(b"ZCOUNT"), k, v(b"-inf"), v(b"+inf")],
+        _ => vec![v(b"ZRANGE"), k, v(b"0"), v(b"-1"), v(b"WITHSCORES")],
     }
-    if n == b"HINCRBY" && cmd.len() == 4 && cmd[3].len() >= 4 { cmd[3] = v(b"3"); }
-    // classes of C03 / C16 repaired in /repo after this branch's models were written (2b792ef LRANGE/LTRIM
-    // stop < -len, eab489c SINTER/SDIFF type check): stay outside them
-    if (n == b"LRANGE" || n == b"LTRIM") && cmd.len() == 4 && cmd[3].first() == Some(&b'-') && cmd[3] != b"-1" { cmd[3] = v(b"-1"); }
-    if (n == b"SINTER" || n == b"SDIFF") && cmd.len() > 2 { cmd.truncate(2); }
+}
+/// a script in the concrete syntax of C12's DSL (harness/src/c12.rs print_script): redis.call of
+/// 1-3 commands with string-literal arguments, all results returned.  A failing call aborts the
+/// script; the writes before it stay (the whole EVAL is logged verbatim either way).
+fn lua_str(b: &[u8]) -> String { let mut s = String::from("\""); for c in b { s += &format!("\\{:03}", c); } s.push('"'); s }
+pub fn script_of(calls: &[Vec<Vec<u8>>], pcall: bool) -> Vec<u8> {
+    let mut o = String::from("local r={}\n");
+    for (j, c) in calls.iter().enumerate() {
+        o += &format!("r[{}]=redis.{}({})\n", j + 1, if pcall { "pcall" } else { "call" }, c.iter().map(|a| lua_str(a)).collect::<Vec<_>>().join(","));
+    }
+    o += "return r";
+    o.into_bytes()
+}
+fn eval_cmd(r: &mut Rng) -> Vec<Vec<u8>> {
+    let n = 1 + r.below(3);
+    let mut calls = vec![];
+    for _ in 0..n {
+        let k = v(*r.pick(&[&b"k1"[..], b"k2", b"ka", b"l1", b"h1"]));
+        calls.push(match r.below(8) {
+            0 | 1 => vec![v(b"SET"), k, v(*r.pick(&[&b"1"[..], b"x", b"10"]))],
+            2 | 3 => vec![v(b"INCR"), k],
+            4 => vec![v(b"RPUSH"), k, v(b"e")],
+            5 => vec![v(b"HSET"), k, v(b"f"), v(b"1")],
+            6 => vec![v(b"DEL"), k],
+            _ => vec![v(b"APPEND"), k, v(b"+")],
+        });
+    }
+    vec![v(b"EVAL"), script_of(&calls, r.chance(1, 4)), v(b"0")]
 }
 
-fn gen_cmd(r: &mut Rng, g3: &mut c03::Gen, st: &mut StreamSt, dirty: bool, intx: bool) -> Option<Vec<Vec<u8>>> {
-    let mut cmd = match r.below(100) {
-        0..=34 => c01::gen_cmd(r),
-        35..=69 => g3.cmd(),
-        70..=94 => stream_cmd(r, st, dirty, intx),
+fn gen_cmd(r: &mut Rng, g3: &mut c03::Gen, st: &mut StreamSt, dirty: bool, intx: bool, db0: bool) -> Option<Vec<Vec<u8>>> {
+    let cmd = match r.below(100) {
+        0..=29 => c01::gen_cmd(r),
+        30..=57 => g3.cmd(),
+        58..=77 => stream_cmd(r, st, dirty, intx),
+        // sorted sets: the model needs the f64 oracle of the arguments, which a queued command loses
+        78..=89 => if !intx { zset_cmd(r) } else { vec![v(b"PING")] },
+        // scripts run in database 0 only (the executor's database handling is C12's subject) and not under MULTI
+        90..=94 => if db0 && !intx { eval_cmd(r) } else { vec![v(b"PING")] },
         95 => vec![v(b"FLUSHDB")],
         96 => if r.chance(1, 3) { vec![v(b"FLUSHALL")] } else { vec![v(b"DBSIZE")] },
         97 => vec![v(b"NOSUCHCMD"), v(b"k1")],
@@ -177,7 +213,6 @@ fn gen_cmd(r: &mut Rng, g3: &mut c03::Gen, st: &mut StreamSt, dirty: bool, intx:
         },
         _ => vec![v(b"PING")],
     };
-    tame(&mut cmd);
     let name = upper(&cmd[0]);
     if intx && (RANDOM_NAMES.contains(&&name[..]) || (name == b"XADD" && cmd.get(2).map_or(false, |x| x == b"*"))) { return None; }
     if !dirty {
@@ -208,6 +243,7 @@ fn random_case(r: &mut Rng, id: String, dirty: bool) -> Case {
         st.added.push((v(b"x1"), v(b"1-1")));
     }
     let mut intx = vec![false; 4];
+    let mut dbs = vec![0i64; 4];            // the database each connection has selected
     let big = r.chance(1, 4); let len = 4 + r.below(if big { 70 } else { 30 });
     for _ in 0..len {
         let c = 1 + r.below(nconn as u64) as i64;
@@ -215,13 +251,18 @@ fn random_case(r: &mut Rng, id: String, dirty: bool) -> Case {
         match r.below(24) {
             0 | 1 => if !intx[cu] { ops.push(cmd_op(c, &[b"MULTI"])); intx[cu] = true; },
             2 | 3 | 4 => if intx[cu] { ops.push(cmd_op(c, &[if r.chance(1, 8) { b"DISCARD" } else { b"EXEC" }])); intx[cu] = false; },
-            // watched keys: only keys that nothing but the string/key family writes (Server.v marks the
-            // writes of that family only; the other families' marks belong to C08's catalogue)
-            5 => if !intx[cu] && r.chance(1, 2) { ops.push(cmd_op(c, &[b"WATCH", *r.pick(&[&b"k1"[..], b"k2", b"ka", b"kb"])])); },
-            6 if dirty => { if r.chance(1, 2) { ops.push(cmd_op(c, &[b"SELECT", *r.pick(&[&b"0"[..], b"1", b"1", b"2", b"15", b"16"])])); } }
+            // watched keys: written by the string, list/set/hash and stream families only (Server.v has no
+            // marks for sorted sets and scripts yet: C08's catalogue)
+            5 => if !intx[cu] && r.chance(1, 2) { ops.push(cmd_op(c, &[b"WATCH", *r.pick(&[&b"kb"[..], b"k3", b"s2", b"x2"])])); },
+            6 => if r.chance(1, 2) {
+                let n = *r.pick(&[&b"0"[..], b"0", b"1", b"1", b"2", b"15", b"16"]);
+                ops.push(cmd_op(c, &[b"SELECT", n]));
+                // queued under MULTI it is a no-op at EXEC (class select-in-multi of C18)
+                if !intx[cu] && n != b"16" { dbs[cu] = String::from_utf8_lossy(n).parse().unwrap(); }
+            },
             _ => {
-                if let Some(cmd) = gen_cmd(r, &mut g3, &mut st, dirty, intx[cu]) {
-                    if r.chance(1, 50) && cmd.len() >= 2 {
+                if let Some(cmd) = gen_cmd(r, &mut g3, &mut st, dirty, intx[cu], dbs[cu] == 0) {
+                    if r.chance(1, 50) && cmd.len() >= 2 && upper(&cmd[0]) != b"EVAL" {
                         let pos = 1 + r.below(cmd.len() as u64 - 1) as usize;
                         let mut fr: Vec<V> = cmd.iter().map(|a| V::Bulk(a.clone())).collect();
                         fr[pos] = if r.chance(1, 2) { V::Int(5) } else { V::NullBulk };
@@ -277,23 +318,41 @@ pub fn witness(id: &str, cmds: &[&[&[u8]]], mode: i64, dump: &[V]) -> Case {
     Case { id: id.to_string(), ops, outs: vec![] }
 }
 
-pub fn witnesses() -> Vec<Case> {
-    let kd = |keys: &[&[u8]]| -> Vec<V> {
-        let mut d = vec![];
-        for k in keys { d.push(V::cmd(&[b"TYPE", k])); d.push(V::cmd(&[b"PTTL", k])); d.push(V::cmd(&[b"GET", k])); d.push(V::cmd(&[b"HGETALL", k]));
-                        d.push(V::cmd(&[b"LRANGE", k, b"0", b"-1"])); d.push(V::cmd(&[b"XPENDING", k, b"g1"])); }
-        d.push(V::cmd(&[b"DBSIZE"])); d
-    };
+fn kd(keys: &[&[u8]]) -> Vec<V> {
+    let mut d = vec![];
+    for k in keys { d.push(V::cmd(&[b"TYPE", k])); d.push(V::cmd(&[b"PTTL", k])); d.push(V::cmd(&[b"GET", k])); d.push(V::cmd(&[b"HGETALL", k]));
+                    d.push(V::cmd(&[b"LRANGE", k, b"0", b"-1"])); d.push(V::cmd(&[b"XPENDING", k, b"g1"])); }
+    d.push(V::cmd(&[b"DBSIZE"])); d
+}
+/// the witnesses of the classes repaired in /repo (8d99f01, 7ef6fad, 39510e9): stored as regression
+/// cases in corpus/C11/fixed-classes.case (written from here: `gen C11 --tier corpus-witnesses`)
+pub fn fixed_class_witnesses() -> Vec<Case> {
     let mut w = vec![
-        witness("w-unlogged-getset", &[&[b"SET", b"k", b"a"], &[b"GETSET", b"k", b"b"]], 1, &kd(&[b"k"])),
-        witness("w-unlogged-hmset", &[&[b"HMSET", b"h", b"f", b"1"]], 1, &kd(&[b"h"])),
-        witness("w-unlogged-pexpire", &[&[b"SET", b"k", b"a"], &[b"PEXPIRE", b"k", b"100000"]], 1, &kd(&[b"k"])),
-        witness("w-unlogged-xreadgroup", &[&[b"XADD", b"x", b"1-1", b"f", b"v"], &[b"XGROUP", b"CREATE", b"x", b"g1", b"0"],
+        witness("r-unlogged-getset", &[&[b"SET", b"k", b"a"], &[b"GETSET", b"k", b"b"]], 1, &kd(&[b"k"])),
+        witness("r-unlogged-hmset", &[&[b"HMSET", b"h", b"f", b"1"]], 1, &kd(&[b"h"])),
+        witness("r-unlogged-pexpire", &[&[b"SET", b"k", b"a"], &[b"PEXPIRE", b"k", b"100000"]], 1, &kd(&[b"k"])),
+        witness("r-unlogged-xreadgroup", &[&[b"XADD", b"x", b"1-1", b"f", b"v"], &[b"XGROUP", b"CREATE", b"x", b"g1", b"0"],
                                             &[b"XREADGROUP", b"GROUP", b"g1", b"c1", b"STREAMS", b"x", b">"]], 1, &kd(&[b"x"])),
-        witness("w-no-select", &[&[b"SELECT", b"1"], &[b"SET", b"k", b"a"]], 1, &kd(&[b"k"])),
+        witness("r-no-select", &[&[b"SELECT", b"1"], &[b"SET", b"k", b"a"], &[b"SELECT", b"0"], &[b"SET", b"j", b"b"], &[b"SELECT", b"1"],
+                                  &[b"GET", b"k"], &[b"APPEND", b"k", b"c"]], 1, &{ let mut d = kd(&[b"k", b"j"]); d.push(V::cmd(&[b"SELECT", b"1"])); d.extend(kd(&[b"k", b"j"])); d.push(V::cmd(&[b"SELECT", b"0"])); d }),
+    ];
+    let mut c = Case { id: "r-restart-nonutf8".to_string(), ops: vec![conn_op(1), cmd_op(1, &[b"SET", b"k", b"\xff"])], outs: vec![] };
+    c.ops.push(aofread_op()); c.ops.push(aofrestart_op(2, &kd(&[b"k"])));
+    // after the restart the engine has forgotten its database: the next write is preceded by SELECT again
+    c.ops.push(cmd_op(2, &[b"SET", b"j", b"b"])); c.ops.push(aofread_op()); w.push(c);
+    w
+}
+
+pub fn witnesses() -> Vec<Case> {
+    let mut w = vec![
         witness("w-expired-unlogged", &[&[b"SET", b"k", b"5", b"PX", b"0"], &[b"GET", b"k"], &[b"INCR", b"k"]], 1, &kd(&[b"k"])),
         witness("w-tx-logged", &[&[b"MULTI"], &[b"SET", b"k", b"a"], &[b"RPUSH", b"l", b"x", b"y"], &[b"GET", b"k"], &[b"EXEC"],
                                   &[b"MULTI"], &[b"SET", b"k", b"b"], &[b"DISCARD"]], 1, &kd(&[b"k", b"l"])),
+        { let src = script_of(&[vec![v(b"SET"), v(b"k"), v(b"v")]], false); let sha = crate::c12::sha1_hex(&src);
+          witness("w-evalsha", &[&[b"SCRIPT", b"LOAD", &src], &[b"EVALSHA", &sha, b"0"]], 1, &kd(&[b"k"])) },
+        witness("w-eval-partial", &[&[b"RPUSH", b"l", b"x"],
+                                    &[b"EVAL", &script_of(&[vec![v(b"SET"), v(b"k"), v(b"1")], vec![v(b"INCR"), v(b"l")], vec![v(b"SET"), v(b"j"), v(b"2")]], false), b"0"]],
+                1, &kd(&[b"k", b"j", b"l"])),
     ];
     // random outcomes logged verbatim: 40 members, 20 popped - the replay pops the same 20 with probability 1/C(40,20)
     let members: Vec<Vec<u8>> = (0..40).map(|j| format!("m{}", j).into_bytes()).collect();
@@ -303,8 +362,6 @@ pub fn witnesses() -> Vec<Case> {
     // recovery: restart on the same directory
     let mut c = Case { id: "w-restart-empty".to_string(), ops: vec![conn_op(1), cmd_op(1, &[b"SET", b"k", b"a"]), cmd_op(1, &[b"RPUSH", b"l", b"x"])], outs: vec![] };
     c.ops.push(aofread_op()); c.ops.push(aofrestart_op(2, &kd(&[b"k", b"l"]))); w.push(c);
-    let mut c = Case { id: "w-restart-nonutf8".to_string(), ops: vec![conn_op(1), cmd_op(1, &[b"SET", b"k", b"\xff"])], outs: vec![] };
-    c.ops.push(aofread_op()); c.ops.push(aofrestart_op(2, &kd(&[b"k"]))); w.push(c);
     w
 }
 
@@ -334,6 +391,7 @@ pub fn binary_witnesses() -> Vec<Case> {
 
 pub fn gen(seed: u64, n: usize, tier: &str) -> Vec<Case> {
     if tier == "binary-witnesses" { return binary_witnesses(); }
+    if tier == "corpus-witnesses" { return fixed_class_witnesses(); }
     let mut r = Rng::new(seed);
     let mut cases = vec![table_case()];
     cases.extend(witnesses());
@@ -372,7 +430,7 @@ fn ask(cl: &mut Client, req: &V, ms: u64) -> V {
     if !cl.send(&w) { return V::Error(b"CLOSED".to_vec()); }
     match cl.read(ms) { Rd::Val(x) => x, Rd::Timeout => V::Error(b"TIMEOUT".to_vec()), Rd::Closed => V::Error(b"CLOSED".to_vec()), Rd::Bad => V::Error(b"BADREPLY".to_vec()) }
 }
-fn dump(cl: &mut Client, reqs: &[V]) -> Vec<V> { reqs.iter().map(|q| canon_reply(&req_name(q), ask(cl, q, 3000))).collect() }
+fn dump(cl: &mut Client, reqs: &[V]) -> Vec<V> { reqs.iter().map(|q| canon_full(q, ask(cl, q, 3000))).collect() }
 fn dec_n(op: &[Tok], pos: &mut usize, k: usize) -> Option<Vec<V>> { let mut l = vec![]; for _ in 0..k { l.push(V::dec(op, pos)?); } Some(l) }
 
 fn aof_read(r: &Runner, op: &[Tok]) -> (Vec<Tok>, Vec<Tok>) {
@@ -395,7 +453,11 @@ fn aof_replay(r: &mut Runner, op: &[Tok]) -> (Vec<Tok>, Vec<Tok>) {
     let mut cl2 = match Client::connect(srv2.port) { Some(x) => x, None => { srv2.stop(false); return (newop, vec![b("NOCONN")]); } };
     ask(&mut cl2, &V::cmd(&[b"VERIF", b"SWEEP", b"PAUSE"]), 3000);
     let replies: Vec<V> = cmds.iter().map(|q| ask(&mut cl2, q, 3000)).collect();
-    newop.push(i(replies.len() as i64)); for x in &replies { x.enc(&mut newop); }
+    // oracles of the model's redo: the reply (SPOP, XADD *), or the f64 parses of a sorted-set command
+    newop.push(i(replies.len() as i64));
+    for (q, x) in cmds.iter().zip(replies.iter()) {
+        match q { V::Array(parts) if is_zcmd(&req_name(q)) => zoracle(parts, &canon_full(q, x.clone())).enc(&mut newop), _ => x.enc(&mut newop) }
+    }
     let live = match r.conns.get_mut(&c) { Some(cl) => dump(cl, &reqs), None => { srv2.stop(false); return (newop, vec![b("CLOSED")]); } };
     // the dump of the second server from a connection of its own (database 0, like the live dump)
     let repl = match Client::connect(srv2.port) { Some(mut cl3) => dump(&mut cl3, &reqs), None => vec![] };
@@ -403,7 +465,7 @@ fn aof_replay(r: &mut Runner, op: &[Tok]) -> (Vec<Tok>, Vec<Tok>) {
     let agree = live == repl;
     let mut out = vec![i(agree as i64), i(replies.len() as i64)];
     if mode == 1 {
-        for (q, x) in cmds.iter().zip(replies.into_iter()) { canon_reply(&req_name(q), x).enc(&mut out); }
+        for (q, x) in cmds.iter().zip(replies.into_iter()) { canon_full(q, x).enc(&mut out); }
         out.push(i(live.len() as i64));
         for x in &live { x.enc(&mut out); }
         for x in &repl { x.enc(&mut out); }
@@ -452,6 +514,23 @@ fn cmdq(r: &mut Runner, op: &[Tok]) -> (Vec<Tok>, Vec<Tok>) {
     (newop, vec![])
 }
 
+/// the sorted-set commands whose model needs Rust's parse::<f64>() of the arguments (as in c04.rs run_tcp)
+fn is_zcmd(name: &[u8]) -> bool {
+    matches!(name, b"ZADD" | b"ZREM" | b"ZSCORE" | b"ZCARD" | b"ZRANK" | b"ZREVRANK" | b"ZRANGE" | b"ZREVRANGE" | b"ZRANGEBYSCORE"
+                 | b"ZREVRANGEBYSCORE" | b"ZCOUNT" | b"ZINCRBY" | b"ZPOPMIN" | b"ZPOPMAX")
+}
+fn zoracle(parts: &[V], canon_reply: &V) -> V {
+    let mut orc: Vec<V> = parts.iter().map(|p| match p {
+        V::Bulk(t) => match String::from_utf8_lossy(t).parse::<f64>() { Ok(x) => V::Double(x), Err(_) => V::NullBulk }, _ => V::NullBulk }).collect();
+    if req_name(&V::Array(parts.to_vec())) == b"ZINCRBY" { orc.push(match canon_reply { V::Double(x) => V::Double(*x), _ => V::NullBulk }); }
+    V::Array(orc)
+}
+/// canonical reply of a command: srv.rs canon_reply, then score texts as bit patterns
+fn canon_full(req: &V, reply: V) -> V {
+    let r = canon_reply(&req_name(req), reply);
+    match req { V::Array(parts) => crate::c04::canon_scores(parts, r), _ => r }
+}
+
 fn run_once(c: &Case) -> (Case, bool) {
     let dir = scratch_dir();
     let mut r = Runner::new(&SrvOpts { password: None, aof: true, dir: Some(dir), keep_dir: true });
@@ -464,6 +543,23 @@ fn run_once(c: &Case) -> (Case, bool) {
             b"AOFREPLAY" => aof_replay(&mut r, op),
             b"AOFRESTART" => { let (a, b2, d) = aof_restart(&mut r, op); dead_ok = d; (a, b2) }
             b"CMDQ" => cmdq(&mut r, op),
+            b"CMD" => {
+                let (mut o2, mut res) = r.op(op);
+                let mut pos = 3;
+                if let Some(V::Array(parts)) = V::dec(op, &mut pos) {
+                    if is_zcmd(&req_name(&V::Array(parts.clone()))) {
+                        let mut p2 = 0;
+                        if let Some(reply) = V::dec(&res, &mut p2) {
+                            if !matches!(&reply, V::Simple(q) if q == b"QUEUED") {
+                                let reply = crate::c04::canon_scores(&parts, reply);
+                                zoracle(&parts, &reply).enc(&mut o2);
+                                res = vec![]; reply.enc(&mut res);
+                            }
+                        }
+                    }
+                }
+                (o2, res)
+            }
             _ => r.op(op),
         };
         out.ops.push(o2); out.outs.push(res);
@@ -584,6 +680,7 @@ pub fn judge(c: &Case, outs: &[Vec<Tok>]) -> Vec<String> {
                 let sel = |f: &V| -> Option<i64> { match f { V::Array(l) if l.len() == 2 && req_name(f) == b"SELECT" =>
                     match &l[1] { V::Bulk(a) => String::from_utf8_lossy(a).parse::<i64>().ok(), _ => None }, _ => None } };
                 for d in &ex {
+                    if d.name == b"SELECT" { continue; }     // never logged: a SELECT in the file is the engine's record
                     while li < logged.len() && logged[li] != d.req { match sel(&logged[li]) { Some(n) => { cur_db = n; li += 1; } None => break } }
                     if li < logged.len() && logged[li] == d.req {
                         li += 1;
@@ -615,9 +712,10 @@ pub fn judge(c: &Case, outs: &[Vec<Tok>]) -> Vec<String> {
                 let mut class: Option<&str> = None;
                 for d in &ex {
                     let eff = took_effect(&d.name, &d.reply);
-                    if d.db != 0 && STATE_CHANGING.contains(&&d.name[..]) { class = Some("no-select-in-log"); break; }
-                    if eff { if let Some(x) = class_of_unlogged(&d.name) { class = Some(x); break; } }
+                    // (missing names and missing SELECT records are found exactly by the AOFREAD check)
+                    if eff && matches!(&d.name[..], b"BLPOP" | b"BRPOP") { class = Some("unlogged-blocking-pop"); break; }
                     if d.name == b"SPOP" && eff { class = Some("random-verbatim"); break; }
+                    if d.name == b"EVALSHA" && eff { class = Some("evalsha-by-hash"); break; }
                     if d.name == b"XADD" { if let V::Array(l) = &d.req { if l.get(2) == Some(&V::Bulk(b"*".to_vec())) { class = Some("random-verbatim"); break; } } }
                     if let V::Array(l) = &d.req {
                         let zero = |j: usize| l.get(j) == Some(&V::Bulk(b"0".to_vec()));
